@@ -199,7 +199,14 @@ class Api:
         class Sub:
             undo = None
 
-            async def __call__(self, ident):
+            def __call__(self, ident):
+                if flavour == "syncraise":
+                    # a plain callable (the subscriber type is "callable returning an awaitable") that fails before it returns its awaitable
+                    api.out.append("NOTIFY %s %s %s" % (kind, canon(ident) if isinstance(ident, str) else ident, sid))
+                    raise RuntimeError("subscriber %s raises before returning an awaitable" % sid)
+                return self._run(ident)
+
+            async def _run(self, ident):
                 api.out.append("NOTIFY %s %s %s" % (kind, canon(ident) if isinstance(ident, str) else ident, sid))
                 if flavour == "once" and self.undo is not None:
                     self.undo(self)                     # a one-shot subscriber: unsubscribes itself from inside its callback
@@ -333,7 +340,7 @@ class Api:
 
     def _subunsub(self, k, w):
         raises = w[-1] == "raise"
-        flavour = w[-1] if w[-1] in ("once", "caller") else None
+        flavour = w[-1] if w[-1] in ("once", "caller", "syncraise") else None
         if raises or flavour:
             w = w[:-1]
         if w[0] == "at":
